@@ -74,6 +74,9 @@ def gen_cases(rng, tier):
                     s["window"] = None
             s["psi"] = None if s["psi"] is None or not isinstance(s["psi"], int) else min(
                 s["psi"], min(len(x) for x in case["series"]))
+            # the validity condition of use_pruning (ED is an upper bound) has to hold for the pairs of THIS collection
+            if s["use_pruning"] and s["penalty"] and len({len(x) for x in case["series"]}) > 1:
+                s["use_pruning"] = False
         cases.append(case)
     return cases
 
